@@ -538,6 +538,20 @@ Walk:
 				if !lazy {
 					copyWithResize(c.tsrParams, c.params)
 				}
+			} else if !strings.HasSuffix(path, "/") && charsMatched == len(path) && charsMatchedInNodeFound == len(current.key) {
+				// Tsr recommendation: add an extra trailing slash (got an exact match)
+				// If match the completely /foo, we end up in an intermediary node which is not a leaf, but
+				// it could have a leaf child which is exactly the missing trailing slash.
+				// /foo
+				//	  / [leaf=/foo/]
+				//	  bar [leaf=/foobar]
+				if child := current.getEdge(slashDelim); child != nil && child.isLeaf() && len(child.key) == 1 {
+					tsr = true
+					n = child
+					if !lazy {
+						copyWithResize(c.tsrParams, c.params)
+					}
+				}
 			}
 		}
 
